@@ -226,6 +226,12 @@ def run(tier, seed):
                     scheds.append(login + pre + [["send", 1, "EPSV"], ["send", 1, (verb + " " + arg).strip()]] + mid
                                   + [["dconnect", 1], ["deof", 1], ["send", 1, "PWD"], ["send", 1, "QUIT"]])
     corecheck.validate(chk, gen.std_cfg(ns=1), gen.STD_TREE, scheds, label="listing-wire")
+    # what a listing or a stat says is the truth about its own entries also when another session lists or stats something else
+    # (another file of another size) while one of this listing's backend calls is in flight
+    from checks import c17
+    lk = c17.lookers()
+    for b in ("memory", "async"):
+        corecheck.validate(chk, gen.std_cfg(ns=3, backend=b), gen.STD_TREE, lk if tier != "quick" else lk[::2], label="listing-concurrent:" + b)
     chk.cov["evaluations"] += len(cases)
     strip = lambda c: {k: v for k, v in c.items() if k not in ("text", "zone", "what", "error")}
     bad = judge.judge("LsTime", [strip(c) for c in cases], chk, chunk=20000)
